@@ -256,4 +256,4 @@ def main(tier=None, replay=None):
                        'TLC, JSON reader, harness projection and its topological order (checked by TopoOK)']
     return ck.finish('one-of-each-primitive circuits (both styles), every connected-pin pattern of the variadic families, and seeded random '
                      'circuits (<=16 gates, all 33 primitives and alias kinds, forks, branch forks, DFF Q/QN, latches, open pins, dangling outputs) x '
-                     'batch sizes 1..20 x {c_reuse} x {strip_forks} x {plain, callback} x cycles 1..4; distinct by circuit digest')
+                     'batch sizes 1..20 x {c_reuse} x {strip_forks} x {plain, callback} x cycles 1..4; ; plus implementation circuits of library cells simulated as they are, TLC-enumerated netlists (NetBuild.tla), batches of 257..70001 patterns with sampled lanes, circuits without state elements under cycle(); distinct by circuit digest')
